@@ -122,7 +122,9 @@ Build(st, sl, rg) ==
     [] st.op = "WithTelemetry" -> W1("withTelemetry", <<>>, st.a, e)
     [] st.op = "WithDomain" -> W1("withDomain", NamedDomain(st.s), <<>>, e)
     [] st.op = "WithIssueLink" -> W1("withIssueLink", <<>>, st.a, e)
-    [] st.op = "WithContextTags" -> IF st.a = <<>> THEN e ELSE W1("withContext", <<>>, TagStrs(st.a), e)
+    [] st.op = "WithContextTags" -> IF st.a = <<>> THEN e
+                                    ELSE IF st.a = <<<<"EMPTYBUF">>>> THEN W1("withContext", <<>>, <<>>, e)
+                                    ELSE W1("withContext", <<>>, TagStrs(st.a), e)
     [] st.op = "WithAssertionFailure" -> W1("withAssertionFailure", <<>>, <<>>, e)
     [] st.op = "Mark"       -> MarkV(e, x, rg)
     [] st.op = "WithSecondaryError" -> Secondary(e, x)
@@ -153,6 +155,7 @@ Build(st, sl, rg) ==
     [] st.op = "JoinPkg"    -> JoinV(SlotVals(st.src, sl))             \* join.Join, no stack
     [] st.op = "GoJoin"     -> GoJoinV(SlotVals(st.src, sl))
     [] st.op = "UMulti"     -> IF st.a = <<<<"REG">>>> THEN V("uRegMulti", st.s, <<>>, SlotVals(st.src, sl), <<>>)
+                               ELSE IF st.a = <<<<"CAUSE">>>> THEN V("uMultiCause", st.s, <<>>, SlotVals(st.src, sl), <<>>)
                                ELSE V(IF st.a = <<>> THEN "uMulti" ELSE "uMultiIs", st.s, st.a, SlotVals(st.src, sl), <<>>)
     [] st.op = "GoWrap2"    -> V("goWrapErrors", Text(e) \o st.s \o Text(x), <<>>, <<e, x>>, <<>>)
     [] st.op = "GrpcStatus" -> V("grpcStatus", <<"L_rpcNotFound">> \o st.s, <<>>, <<>>, <<>>)
@@ -211,7 +214,7 @@ StepU(st, sl) ==
   (IF st.op \in SUnsafeOps /\ ~KeyWrap(st) THEN WordsIn(st.s) ELSE {})
   \cup PartsU(st.parts)
   \cup (IF st.op \in AllUnsafeFmtOps THEN PartsS(st.parts) ELSE {})
-  \cup (IF st.op = "UMulti" /\ st.a # <<<<"REG">>>> THEN WordsInAll(st.a) ELSE {})
+  \cup (IF st.op = "UMulti" /\ st.a \notin {<<<<"REG">>>>, <<<<"CAUSE">>>>} THEN WordsInAll(st.a) ELSE {})
   \cup (IF st.op = "GoWrap" \/ (st.op = "ULeaf" /\ st.a[1] \notin {<<"uSafeDetLeaf">>, <<"uKeyLeaf">>})
         THEN WordsInAll(st.a) ELSE {})
   \cup (IF st.op = "WithContextTags"
@@ -231,7 +234,11 @@ StepS(st) ==
   \cup (IF st.op = "ULeaf" /\ st.a[1] \in {<<"uSafeDetLeaf">>, <<"uKeyLeaf">>} THEN WordsInAll(Tail(st.a)) ELSE {})
   \cup (IF st.op \in {"OsPathError", "OsLinkError"} /\ Len(st.a) >= 1 THEN WordsIn(st.a[1]) ELSE {})
 \* some string argument of the step is not regular text (C01, C09, C10 quantify over regular text)
+\* (a multi-cause node that also has Cause() is a wrapper to the library's single-cause
+\* walk and a multi-cause node to its branch walk: its value is not predicted, only the
+\* relations with the standard library are judged)
 StepH(st) ==
+  (st.op = "UMulti" /\ st.a = <<<<"CAUSE">>>>) \/
   LET strs == (IF st.s = <<>> THEN <<>> ELSE <<st.s>>) \o FilterNonEmpty(st.a) \o FilterNonEmpty(PartsAllStr(st.parts))
   IN \E i \in 1..Len(strs) : ~Regular(strs[i]) /\ strs[i] \notin {<<SP>>, <<SEP>>}
 
